@@ -116,7 +116,9 @@ def oracle_fwd(ck, dims, m, J, filt, x, tol=0.0, named=None):
         sh, _ = level_sizes(x.shape[-2], L, m, J); sw, _ = level_sizes(x.shape[-1], Lr, m, J)
         short = per_short_fwd(sh, L, m) or per_short_fwd(sw, Lr, m)
         may_raise = (m == 4 and (reflect_may_raise(sh, L) or reflect_may_raise(sw, Lr)))
-    got = rt.run_impl(case, IMPL)
+    from .. import impl_dwt
+    with impl_dwt.named(named):
+        got = rt.run_impl(case, IMPL)
     desc = '%dD forward mode=%s J=%d L=%d shape=%s %s' % (dims, gen.MODE_NAME[m], J, L, tuple(x.shape), named or 'integer filters')
     replay = {'oracle': 'fwd', 'dims': dims, 'm': m, 'J': J, 'filt': [arr_json(f) for f in filt], 'x': arr_json(x), 'tol': tol, 'named': named}
     if isinstance(got, tuple):
